@@ -70,11 +70,14 @@ Foreign == 9
 \* r = Scalar: not a reference into the FROM scope either - a scalar subquery ( SELECT max(zc) FROM zt ) over a table of its own
 Scalar == 8
 Outside(r) == r \in {Foreign, Scalar}
-Refs == [r : 0..Len(rels), c : ColNames \cup {Star}] \cup (IF WithForeign THEN [r : {Foreign}, c : ColNames] \cup {[r |-> Scalar, c |-> "zc"]} ELSE {})
+\* c = Cnt: no column but count(*) - an aggregate over every row of the FROM scope, fed by the wildcard of each relation
+Cnt == "count(*)"
+Refs == [r : 0..Len(rels), c : ColNames \cup {Star}] \cup (IF WithLiteral /\ (\A i \in DOMAIN rels : rels[i].k = "tbl") THEN {[r |-> 0, c |-> Cnt]} ELSE {})
+        \cup (IF WithForeign THEN [r : {Foreign}, c : ColNames] \cup {[r |-> Scalar, c |-> "zc"]} ELSE {})
 RefSeqs == (IF WithLiteral THEN {<<>>} ELSE {}) \cup {<<x>> : x \in Refs}
            \cup (IF MaxRefs >= 2 THEN {<<x, y>> : x \in {z \in Refs : z.c # Star}, y \in {z \in Refs : z.c # Star}} ELSE {})
 ItemOK(it) == /\ (Len(it.refs) = 2 => it.al # None /\ it.refs[1] # it.refs[2])
-              /\ ((\E m \in DOMAIN it.refs : it.refs[m].r = Scalar) => it.al # None)      \* an un-aliased subquery is named by its text
+              /\ ((\E m \in DOMAIN it.refs : it.refs[m].r = Scalar \/ it.refs[m].c = Cnt) => it.al # None)      \* an un-aliased subquery is named by its text
               /\ (Len(it.refs) = 0 => it.al # None)
               /\ (Len(it.refs) = 1 /\ it.refs[1].c = Star => it.al = None)
               /\ \A j \in DOMAIN items : ItemName(items[j]) # ItemName(it) \/ ItemName(it) = Star
@@ -140,7 +143,8 @@ SrcOfRel(i, c) == LET r == rels[i] IN
    ELSE IF SubHas(r, c) THEN {Col(TblName(r), SubSrc(r, c))} ELSE {[k |-> "subcol", t |-> r.al, c |-> c, cands |-> {}]}
 AllRelNames == {IF rels[i].k = "tbl" THEN TblName(rels[i]) ELSE rels[i].al : i \in DOMAIN rels}
 SrcOfRef(ref) ==
-   IF ref.r = Foreign THEN {Col("<default>.zz", ref.c)}
+   IF ref.c = Cnt THEN {Col(TblName(rels[i]), Star) : i \in DOMAIN rels}
+   ELSE IF ref.r = Foreign THEN {Col("<default>.zz", ref.c)}
    ELSE IF ref.r = Scalar THEN {Col("<default>.zt", ref.c)}
    ELSE IF ref.r > 0 THEN SrcOfRel(ref.r, ref.c)
    ELSE IF Len(rels) = 1 THEN SrcOfRel(1, ref.c)
@@ -172,7 +176,7 @@ GraphCols(i) == LET r == rels[i] IN
    \cup (IF r.k = "tbl" /\ IsKnown(r) /\ (\E j \in DOMAIN items : Len(items[j].refs) = 1 /\ items[j].refs[1].c = Star /\ items[j].refs[1].r \in {0, i})
         THEN ToSet(MetaCols(TblName(r))) ELSE {})
 ValidColumns == \A j \in DOMAIN items, m \in 1..2 :
-   (m <= Len(items[j].refs) /\ items[j].refs[m].r = 0 /\ items[j].refs[m].c # Star /\ Len(rels) > 1)
+   (m <= Len(items[j].refs) /\ items[j].refs[m].r = 0 /\ items[j].refs[m].c \notin {Star, Cnt} /\ Len(rels) > 1)
       => LET c == items[j].refs[m].c
              S == {i \in DOMAIN rels : c \in KnownCols(i)} IN
          Cardinality(S) <= 1 \/ ((\A i \in S : MetaHas(i, c)) /\ (\A i \in DOMAIN rels : c \notin GraphCols(i)))
